@@ -2,14 +2,20 @@
 """Regenerates /verif/MANIFEST.json from vf/registry.py and validates it."""
 import json, os, subprocess, sys
 sys.path.insert(0, os.path.dirname(os.path.dirname(os.path.abspath(__file__))))
-from vf import registry
+from vf import registry, core
+core.bind_repo()
+import importlib
 
 V = os.path.dirname(os.path.dirname(os.path.abspath(__file__)))
 props = [json.loads(l)["id"] for l in open(os.path.join(V, "properties.jsonl"))]
 checks, na = [], []
 for pid in props:
-    r = registry.CHECKS.get(pid)
-    if r is None or not os.path.exists(os.path.join(V, "vf", "checks", pid.lower() + ".py")):
+    r = None
+    if os.path.exists(os.path.join(V, "vf", "checks", pid.lower() + ".py")):
+        r = getattr(importlib.import_module("vf.checks." + pid.lower()), "META", None)
+    if r is not None and not r.get("claimed", True):
+        na.append({"property_id": pid, "reason": r["reason"]}); continue
+    if r is None:
         na.append({"property_id": pid, "reason": registry.NOT_CLAIMED.get(pid, "check not built yet in this revision of /verif (planned: see DESIGN.md section 5)")})
         continue
     checks.append({
@@ -19,7 +25,7 @@ for pid in props:
         "evidence_file": f"/verif/evidence/{pid}.json",
         "replay_cmd_template": f"./check {pid} --replay {{path}}",
         "engine": r["engine"],
-        "level_claimed": {"category": r["level"], "text": r["text"], "design_ref": r.get("design_ref", f"DESIGN.md section 5, {pid}")},
+        "level_claimed": {"category": importlib.import_module("vf.checks." + pid.lower()).LEVEL, "text": r["text"], "design_ref": r.get("design_ref", f"DESIGN.md section 5, {pid}")},
         "level_note": r["note"],
         "technique": r["technique"],
     })
@@ -33,7 +39,7 @@ m = {
         "source_commits": registry.HOOK_COMMITS,
         "add_only": True,
     },
-    "engines": registry.ENGINES,
+    "engines": [dict(e, serves_properties=[c["property_id"] for c in checks if c["engine"] == e["name"]]) for e in registry.ENGINES],
     "checks": checks,
     "notes": registry.NOTES,
     "not_applicable": na,
